@@ -307,7 +307,9 @@ class PageTemplate(BaseTemplate):
             tokenizer=self.tokenizer
         )
 
-    def render(self, encoding: str | None = None, **_kw: Any) -> str:
+    def render(
+        self, /, encoding: str | None = None, **_kw: Any
+    ) -> str:
         """Render template to string.
 
         If providd, the ``encoding`` argument overrides the template
@@ -564,7 +566,7 @@ class PageTextTemplateFile(PageTemplateFile):
 
     mode = "text"
 
-    def render(self, **vars: Any) -> bytes:  # type: ignore[override]
+    def render(self, /, **vars: Any) -> bytes:  # type: ignore[override]
         result = super().render(**vars)
         # Unless an encoding is configured, the text goes out in the
         # encoding that the file was read with.
